@@ -107,6 +107,9 @@ type KnownFinding struct {
 	Commit   string `json:"commit,omitempty"`
 	Witness  string `json:"witness,omitempty"`
 	What     string `json:"what,omitempty"`
+	// Labels restricts a known class to findings whose label contains one of these
+	// substrings (empty = any finding inside the class predicate).
+	Labels []string `json:"labels,omitempty"`
 }
 
 type RunResult struct {
@@ -334,9 +337,11 @@ func cmdRun(args []string) int {
 	}
 	known := loadKnown()
 	knownIDs := map[string]bool{}
+	knownLabels := map[string][]string{}
 	for _, k := range known {
 		if k.Property == spec.Property && k.Status == "known" {
 			knownIDs[k.ID] = true
+			knownLabels[k.ID] = k.Labels
 		}
 	}
 	workDir := filepath.Join(verifDir, ".work", id+"-"+*tier)
@@ -401,6 +406,7 @@ func cmdRun(args []string) int {
 			}
 		}
 		res := exploreRun(spec, run, ts, *workers, seed, knownIDs, workDir, stopAll, *verbose)
+		demoteMislabelled(res, knownLabels)
 		results = append(results, res)
 		if res.Skipped != "" {
 			say("SKIPPED run=%s: %s", run.Name, res.Skipped)
@@ -1100,4 +1106,28 @@ func cmdReplay(args []string) int {
 	}
 	fmt.Printf("NOT-REPRODUCED property=%s %s %q: %s\n", rf.Property, rf.Kind, rf.Label, how)
 	return 0
+}
+
+// demoteMislabelled: a finding attributed to a known class whose label does not
+// match the class's label patterns is not the known finding: it is reported as a
+// violation outside every class.
+func demoteMislabelled(res *RunResult, knownLabels map[string][]string) {
+	for _, f := range res.Findings {
+		if f.Class == "" {
+			continue
+		}
+		pats := knownLabels[f.Class]
+		if len(pats) == 0 {
+			continue
+		}
+		ok := false
+		for _, p := range pats {
+			if strings.Contains(f.Label, p) {
+				ok = true
+			}
+		}
+		if !ok {
+			f.Class = ""
+		}
+	}
 }
